@@ -58,14 +58,27 @@ func c17Variants() []c17Variant {
 		{Name: "tags-purego", Flags: []string{"-tags=purego"}, Print: "print"},
 		// instrumented builds a user may well ship or test with: pointer-arithmetic checks, the race detector
 		{Name: "checkptr", Flags: []string{"-gcflags=all=-d=checkptr"}, Print: "print"},
-		{Name: "race-build", Flags: []string{"-race"}, Print: "print", Thorough: true},
+		{Name: "race-build", Flags: []string{"-race"}, Print: "print"},
+		{Name: "no-optimisation", Flags: []string{"-gcflags=all=-N -l"}, Print: "print"},
+		// a program that replaces the process-wide entropy source by one that fails (or only yields zeros before failing):
+		// hashing is deterministic and must not care
+		{Name: "failing-rand-reader", Imports: []string{"crypto/rand", "errors"},
+			Pre:   "type deadSource struct{ zeros int }\n\nfunc (d *deadSource) Read(p []byte) (int, error) {\n\tif d.zeros <= 0 {\n\t\treturn 0, errors.New(\"no entropy\")\n\t}\n\n\tfor i := range p {\n\t\tp[i] = 0\n\t}\n\n\td.zeros -= len(p)\n\n\treturn len(p), nil\n}\n\nfunc init() { rand.Reader = &deadSource{} }",
+			Print: "print"},
+		{Name: "zero-then-failing-rand-reader", Imports: []string{"crypto/rand", "errors"},
+			Pre:   "type deadSource struct{ zeros int }\n\nfunc (d *deadSource) Read(p []byte) (int, error) {\n\tif d.zeros <= 0 {\n\t\treturn 0, errors.New(\"no entropy\")\n\t}\n\n\tfor i := range p {\n\t\tp[i] = 0\n\t}\n\n\td.zeros -= len(p)\n\n\treturn len(p), nil\n}\n\nfunc init() { rand.Reader = &deadSource{zeros: 4096} }",
+			Print: "print"},
+		// a program that already uses the obvious names in the process-wide registries of the standard library
+		{Name: "global-registries-taken", Imports: []string{"expvar", "flag", "net/http"},
+			Pre: "func init() {\n\tfor _, n := range []string{\"secp256k1\", \"github.com/bytemare/secp256k1\", \"bytemare/secp256k1\", \"h2c\", \"hash2curve\"} {\n\t\texpvar.NewMap(n)\n\t\tflag.String(n, \"\", \"taken\")\n\t\thttp.HandleFunc(\"/debug/\"+n, func(http.ResponseWriter, *http.Request) {})\n\t}\n}",
+			Print: "print"},
 		{Name: "cgo-disabled-netgo", Flags: []string{"-tags=netgo,osusergo"}, Env: []string{"CGO_ENABLED=0"}, Print: "print"},
 		{Name: "math-big-only", Imports: []string{"math/big"}, Pre: "var _ = big.NewInt", Print: "print", Thorough: true},
 		{Name: "encoding-json", Imports: []string{"encoding/json"}, Pre: "var _ = json.Marshal", Print: "print", Thorough: true},
 		{Name: "crypto-tls", Imports: []string{"crypto/tls"}, Pre: "var _ = tls.VersionTLS13", Print: "print", Thorough: true},
 		{Name: "trimpath", Flags: []string{"-trimpath"}, Print: "print", Thorough: true},
 		{Name: "gcflags-noinline", Flags: []string{"-gcflags=all=-l"}, Print: "print", Thorough: true},
-		{Name: "toolchain-go1.26.8", GoBin: "go1.26.8", Env: []string{"GOTOOLCHAIN=local"}, Print: "print", Thorough: true},
+		{Name: "toolchain-go1.26.8", GoBin: "go1.26.8", Env: []string{"GOTOOLCHAIN=local"}, Print: "print"},
 	}
 }
 
@@ -161,7 +174,7 @@ func init() {
 		Flavour: "plain",
 		Rule: "executions = plain main programs (not test binaries) generated into a scratch module with `replace github.com/bytemare/secp256k1 => /repo`, differing in the set of other imports " +
 			"(nothing else at all, fmt+os, crypto/sha512, crypto/md5+hash/crc32, crypto/sha256 itself, the crypto registry package only; thorough: math/big, encoding/json, crypto/tls), in calling the library from init(), " +
-			"in what they do to the crypto hash registry (a program that re-registers SHA-256 as a wrapper around the standard one), and in build configuration (-ldflags='-s -w', -gcflags=all=-d=checkptr, GOARCH=386 executed natively, -tags=purego, CGO_ENABLED=0 with netgo/osusergo; thorough: -trimpath, -gcflags=all=-l, the alternate toolchain go1.26.8). Each calls HashToGroup, EncodeToGroup and HashToScalar on 4 (msg, DST) pairs including an oversize DST, and twice makes the documented mistake of an empty DST, recovers from the panic and carries on. " +
+			"in what they do to process-wide state (the entropy source replaced by a failing one; the obvious names already taken in expvar / flag / http.DefaultServeMux), in what they do to the crypto hash registry (a program that re-registers SHA-256 as a wrapper around the standard one), and in build configuration (-ldflags='-s -w', -gcflags=all=-d=checkptr, GOARCH=386 executed natively, -tags=purego, CGO_ENABLED=0 with netgo/osusergo; -race, -gcflags=all=-N -l, the alternate toolchain go1.26.8; thorough: -trimpath, -gcflags=all=-l). Each calls HashToGroup, EncodeToGroup and HashToScalar on 4 (msg, DST) pairs including an oversize DST, and twice makes the documented mistake of an empty DST, recovers from the panic and carries on. " +
 			"Oracle: exit status 0, no panic text, and every printed value equal to the oracle's RFC 9380 value. The program importing nothing else is the minimum of the configuration lattice (adding imports can only add registrations), so it is the decisive one. " +
 			"evaluations = library calls observed across programs; distinct non-trivial = distinct (program, input) results checked.",
 		Assume: []string{"`go build` links exactly what the import graph requires; adding imports can only add hash registrations"},
